@@ -63,6 +63,7 @@ struct Stats {
     long_partial_marker: u64,
     tail_grid: u64,
     with_logger: u64,
+    refill_boundary: u64,
 }
 
 fn run_case(t: &mut Trace, st: &mut Stats, case: u64, stream: &Stream, start: u32, reader: u64, origin: &str) {
@@ -218,7 +219,7 @@ fn main() {
     let mut t = Trace::create(&a.str("--out", "trace.ndjson"));
     let mut st = Stats { cases: 0, shapes: [0; 64], garb_before: 0, garb_between: 0, garb_after: 0, trailing_short: 0, max_payload: 0, empty_payload: 0, msgs: 0,
         serial_cases: 0, storage_cases: 0, long_leading: [0; 2], long_between: [0; 2], long_before_last: [0; 2], long_trailing: [0; 2], long_by_reader: [0; 4],
-        long_partial_marker: 0, tail_grid: 0, with_logger: 0 };
+        long_partial_marker: 0, tail_grid: 0, with_logger: 0, refill_boundary: 0 };
     let seed = a.num("--seed", 1);
     let mut rng = Rng::new(seed ^ 0xC01);
     let mut case = a.num("--first-case", 0);
@@ -286,6 +287,33 @@ fn main() {
             }
         }
     }
+    // refill-boundary class: a maximal storage message (65551 bytes) that starts 65535..65553 bytes in front of the first 512 KiB refill
+    // boundary of the reader front-end (the low mark the callers use must still make the whole message visible), behind 7 large messages
+    if a.num("--scale", 0) > 0 {
+        for d in 0..=18usize {
+            let serial = false;
+            let mut s = Stream { serial, segs: vec![] };
+            let flags = F_WEID | F_WTMS;
+            let target = 512 * 1024 - 65553 + d; // start offset of the maximal message
+            let big = max_payload(flags) + 16 + 12; // total size of a maximal message with these flags
+            let mut left = target;
+            while left > 0 {
+                let size = if left >= big + 100 { big } else if left > big { left - 100 } else { left };
+                let pl = rng.bytes(size - 28);
+                s.segs.push(Seg::M(rand_msg(&mut rng, serial, flags, pl)));
+                left -= size;
+            }
+            let pl = rng.bytes(max_payload(flags));
+            s.segs.push(Seg::M(rand_msg(&mut rng, serial, flags, pl)));
+            for _ in 0..3 {
+                s.segs.push(small_msg(&mut rng, serial));
+            }
+            sanitize(&mut s, &mut rng);
+            st.refill_boundary += 1;
+            run_case(&mut t, &mut st, case, &s, 100, 2 + 4 * (d as u64 % 2), "refill-boundary");
+            case += 1;
+        }
+    }
     // trailing garbage runs around the minimal message sizes (8 serial, 20 storage; +-1, 2x-1, 2x, 2x+1) behind 0, 1, 2, 5 messages
     if a.num("--tails", 0) > 0 {
         for serial in [false, true] {
@@ -351,7 +379,7 @@ fn main() {
     println!("{}", json!({"cases": case, "lines": t.lines, "scenarios": n_scn, "model_predicted_kf": predicted_kf, "msgs": st.msgs,
         "shapes_storage": shapes_storage, "shapes_serial": shapes_serial, "garbage_before": st.garb_before, "garbage_between": st.garb_between,
         "garbage_after": st.garb_after, "trailing_short_run": st.trailing_short, "max_payload_msgs": st.max_payload, "empty_payload_msgs": st.empty_payload,
-        "serial_cases": st.serial_cases, "storage_cases": st.storage_cases, "files": files, "tail_grid_cases": st.tail_grid, "cases_with_logger": st.with_logger,
+        "serial_cases": st.serial_cases, "storage_cases": st.storage_cases, "files": files, "tail_grid_cases": st.tail_grid, "cases_with_logger": st.with_logger, "refill_boundary_cases": st.refill_boundary,
         "long_garbage": {"leading_storage": st.long_leading[0], "leading_serial": st.long_leading[1], "between_storage": st.long_between[0],
             "between_serial": st.long_between[1], "before_last_storage": st.long_before_last[0], "before_last_serial": st.long_before_last[1],
             "trailing_storage": st.long_trailing[0], "trailing_serial": st.long_trailing[1], "via_slice": st.long_by_reader[0], "via_cursor": st.long_by_reader[1],
